@@ -1316,7 +1316,7 @@ func (s *BlockAttrsSpec) decode(content *hcl.BodyContent, blockLabels []blockLab
 	diags = append(diags, attrDiags...)
 
 	if len(attrs) == 0 {
-		return cty.MapValEmpty(s.ElementType), diags
+		return prepareBodyVal(cty.MapValEmpty(s.ElementType), block.Body), diags
 	}
 
 	vals := make(map[string]cty.Value, len(attrs))
@@ -1368,7 +1368,7 @@ func (s *BlockAttrsSpec) decode(content *hcl.BodyContent, blockLabels []blockLab
 		}
 	}
 
-	return cty.MapVal(vals), diags
+	return prepareBodyVal(cty.MapVal(vals), block.Body), diags
 }
 
 func (s *BlockAttrsSpec) impliedType() cty.Type {
